@@ -13,7 +13,7 @@ RULE = ("hyp: sequence (N<=60 quick / 120 thorough, all composition classes) x t
         "for each type. Oracle: shape (2, floor((N-w)/s)+1); positions strictly increasing in 1..N; values in [0,1]; locality - value k equals "
         "the single value of the isolated window seq[ks:ks+w] with blobLen=w and is unchanged by mutating residues outside that window; WF = "
         "Shannon entropy (base = alphabet size) of the window after the harness's own alphabet reduction, 0 for homopolymeric windows, "
-        "invariant under permuting the window. The profile under test is computed after a generated warm-up history (other API calls incl. complexity / reduction calls with other user alphabets on the same object) in half of the cases. Non-trivial: K>=2 and some window with >=2 distinct reduced letters; distinct by the whole case.")
+        "invariant under permuting the window. The profile under test is computed after a generated warm-up history (other API calls incl. complexity / reduction calls with other user alphabets on the same object) in half of the cases. 5% of the cases are 140-320 residue sequences with small windows and steps 1..13 (more than 128 windows); user alphabets may carry extra non-amino-acid keys (which can never apply to a valid sequence and must not change the alphabet size). Non-trivial: K>=2 and some window with >=2 distinct reduced letters; distinct by the whole case.")
 ASSUMPTIONS = ["user alphabets have at least two image letters (base-1 entropy is undefined; stated in the property's quantifier)",
                "window, step and word sizes are positive integers", "entropy tolerance 1e-9"]
 TECHNIQUE = "Hypothesis property testing + small exhaustive grid; oracle = shape/range invariants, locality metamorphic relations (isolated window, outside mutation, window permutation), independent Shannon entropy with independently transcribed alphabet partitions"
@@ -23,6 +23,7 @@ LEVEL_NOTE = "LC and LZW values are checked for range and locality only (no clos
 
 def my_reduce(seq, size, user):
     if user:
+        # keys other than the 20 amino acids can never apply to a valid sequence: the alphabet is the set of images of the 20
         return "".join(user[r] for r in seq), len(set(user[a] for a in ref.AA))
     # representative letters are irrelevant for entropy: use the group itself as the symbol
     return [ref.group_of(size, r) for r in seq], size
@@ -117,7 +118,8 @@ def enum_cases(tier, seed):
 
 @st.composite
 def hyp_case(draw, max_len):
-    seq = draw(gens.sequences(max_len=max_len))
+    long_case = draw(st.integers(0, 19)) == 0
+    seq = draw(gens.sequences(max_len=max_len)) if not long_case else "".join(draw(st.lists(st.sampled_from(list("KEGSLAVPQD")), min_size=140, max_size=320)))
     N = len(seq)
     typ = draw(st.sampled_from(["WF", "LC", "LZW", "wf", "lc", "lzw", "Wf", "Lzw"]))
     case = {"seq": seq, "type": typ, "word": draw(st.integers(1, 6))}
@@ -128,6 +130,10 @@ def hyp_case(draw, max_len):
         user = {}
         for i, a in enumerate(perm):
             user[a] = images[i] if i < nimg else draw(st.sampled_from(images))   # every image letter is used: exactly nimg letters
+        if draw(st.integers(0, 3)) == 0:
+            # extra keys (ambiguity codes, lower case) mapping to letters no standard residue maps to
+            for k in draw(st.lists(st.sampled_from(["B", "Z", "X", "U", "O", "J", "a", "k"]), min_size=1, max_size=3, unique=True)):
+                user[k] = draw(st.sampled_from(list(ref.AA)))
         case["user"] = user
     else:
         case["size"] = draw(st.sampled_from(SIZES))
@@ -140,6 +146,10 @@ def hyp_case(draw, max_len):
         return case
     case["w"] = draw(st.one_of(st.integers(1, N), st.sampled_from([1, N, min(N, 10), min(N, 5)])))
     case["s"] = draw(st.one_of(st.integers(1, N), st.sampled_from([1, 1, 2, 3])))
+    if long_case:
+        case["w"] = draw(st.integers(1, 12))
+        case["s"] = draw(st.sampled_from([1, 2, 3, 5, 6, 7, 9, 10, 11, 13]))
+        case["locality"] = False
     case["mutate"] = {"k": draw(st.integers(0, 50)), "subs": draw(st.lists(st.tuples(st.integers(0, 500), st.sampled_from(list(ref.AA))).map(list), min_size=1, max_size=4))}
     case["perm_seed"] = draw(st.integers(0, 10 ** 6))
     case["warm"] = draw(gens.warmups())
